@@ -64,6 +64,11 @@ CLAIMED = {
    note="bounds in evidence (lists <= 2-3, floats in [-2,2], 1-2 grid points, nalpha <= 3/stride <= 4); NotImplementedError from ueg_vector/get_reasonable_normalizer counts as an explicit refusal; SDMX plan classes, PySCF-layer initialisers and convert_rad2orb_ through its wrapper are not covered; out-of-bounds counterexamples are confirmed with valgrind memcheck.",
    technique="CrossHair symbolic execution (z3) of the real constructors + own symbolic execution of plans and of clang LLVM IR behind the real ctypes wrappers (bounds-checked memory) + z3; replay on the unmodified code (valgrind memcheck for out-of-bounds accesses)",
    design="4/C18"),
+ "C16": dict(
+   text="The real MOLGP.__init__/reset_reactions/add_reactions/fit/compute_likelihood are executed symbolically on duck-typed kernels that carry exactly the state the property names (cov/base/dcov/dbase dictionaries, rxn_cov_list, Kmm, alpha) with symbolic contents; scipy's cholesky/cho_solve and numpy's slogdet are replaced by their definitions over exact reals. z3 / the polynomial normal form decide, without inverting anything on the oracle side: labels = documented reference minus counted baselines (+ energy*unit - KS baselines for XC reactions, default unit included), noises = documented combination of noise / noise_factor / noise_rel_factor / weight, covariance rows = counted sums (zero rows for correlation kernels in exchange-only reactions); after fit (Kmm + eps I) alpha_k == Kmn alpha_mol for every kernel and sum_k Knm alpha_k + (Sigma + eps I) alpha_mol == y (hence the residual equals the noise covariance applied to alpha_mol) with symbolic numerical_epsilon >= 0; permuting the reaction list permutes alpha_mol and leaves every kernel.alpha unchanged; reset_reactions + re-adding reproduces the lists; compute_likelihood equals the Gaussian log marginal likelihood; modes 1 and > 2 are refused.",
+   note="1-2 control points per kernel, 1-2 kernels (x, c, xc), 1-3 reactions; fit consumes fresh symbols for the stored lists (their composition is decided separately); NOT covered: _compute_mol_covs/store_mol_covs (file loading, grid integration, density mask), control-point selection, optimize_cov_and_noise_, MOLGP2, non-default x; likelihood compared at sigma_min = 0.",
+   technique="symbolic execution of the training code with exact-real definitions of the LAPACK calls + polynomial normal form / z3 identities on the solved weights; replay on the unmodified code with scipy",
+   design="4/C16"),
  "C09": dict(
    text="Aliasing: every public pure-Python entry (exponents, s2/alpha routines, all map classes, normaliser list, semilocal plan, NLDF plan, eval_xc_cider) is called with caller-owned symbolic arrays and z3 decides on every feasible path that the arrays hold the same terms afterwards. Batching/blocking: the real nr_rks/nr_uks/nr_rks_nldf/nr_uks_nldf are executed symbolically (nao=2, 2 grid points, nset=2; one block of 2 vs two blocks of 1) and compared term-by-term with separate calls on fresh objects. History: interleaved/repeated calls on one plan object and a failed-then-successful call on one kernel object against fresh objects.",
    note="PySCF primitives replaced by numpy reference implementations; generator and eval_xc_cider by contract stubs that keep the per-spin cache statefulness; real max_memory->blksize arithmetic and SDMX buffers outside.",
